@@ -177,8 +177,8 @@ def function_clamps(ctx):
         ctx.prove("initial-guess-is-creation-position", ctx.eq(np.array(rec.get("x0", pos)), pos))
 
 
-@proof("C17", "bounded/fresh-clamp-reports-creation-point", cases=["line", "radial", "plane", "free"], level="B", samples=25,
-       functions=[CL + "clamp:ClampBase.get_params"],
+@proof("C17", "bounded/fresh-clamp-reports-creation-point", cases=["line", "radial", "plane", "free", "curve"], level="B", samples=25,
+       functions=[CL + "clamp:ClampBase.get_params", CL + "curve:CurveClamp.__init__", "classy_blocks.construct.curves.curve:CurveBase.get_closest_param"],
        note="bounded stand-in only: relies on scipy.optimize.minimize finding the arg-min (A2); tolerance 1e-4 of the length scale")
 def fresh_clamp(ctx):
     rng = ctx.rng
@@ -208,6 +208,20 @@ def fresh_clamp(ctx):
         on = pt + w - n * np.dot(w, n) / np.dot(n, n)
         clamp = PlaneClamp(on, pt, n)
         ctx.prove("on-manifold-creation-point-is-kept", np.linalg.norm(clamp.position - on) < 1e-4 * (1 + np.linalg.norm(w)))
+    elif kind == "curve":
+        # a multi-turn helix whose parameter range does not start at 0 and that passes close to itself
+        from classy_blocks.construct.curves.analytic import AnalyticCurve
+
+        rad, pitch = rng.uniform(0.8, 2), rng.uniform(0.3, 0.6)
+        lo = rng.choice([-9.0, -4.0, 3.0, 0.0])
+        hi = lo + rng.uniform(9, 14)
+        c0 = v()
+        curve = AnalyticCurve(lambda t: c0 + np.array([rad * math.cos(t), rad * math.sin(t), pitch * t]), (lo, hi))
+        t0 = rng.uniform(lo + 0.05 * (hi - lo), hi - 0.05 * (hi - lo))
+        on = np.asarray(curve.get_point(t0), dtype=float)
+        clamp = CurveClamp(on, curve)
+        ctx.prove("on-manifold-creation-point-is-kept", np.linalg.norm(clamp.position - on) < 1e-3 * rad, d=float(np.linalg.norm(clamp.position - on)), t0=t0, bounds=(lo, hi))
+        ctx.prove("parameter-inside-the-curves-bounds", lo - 1e-9 <= clamp.params[0] <= hi + 1e-9)
     else:
         p = v()
         clamp = FreeClamp(p)
